@@ -197,12 +197,16 @@ pub fn check_ring(input: &[P4], role: u8, built: &MPart, dims: [bool; 4], is_pol
     if built.kind != role {
         return Some(format!("declared-role: ring declared {} came out {}", role, built.kind));
     }
-    if let Some(s) = exact_shoelace(&built.pts) {
-        if role == 0 && s < 0 {
-            return Some(format!("orientation: outer ring is counter-clockwise (exact shoelace {})", s));
-        }
-        if role == 1 && s > 0 {
-            return Some(format!("orientation: inner ring is clockwise (exact shoelace {})", s));
+    if let Some(s) = exact_shoelace_sign(&built.pts) {
+        // where double arithmetic cannot represent the terms of the area sum, the computed sign is a matter of
+        // rounding: reported under its own clause
+        if (role == 0 && s < 0) || (role == 1 && s > 0) {
+            let class = if trapezoid_sum_is_exact_in_f64(&built.pts) && trapezoid_sum_is_exact_in_f64(&expect) && trapezoid_sum_is_exact_in_f64(&rev) { "orientation" } else { "orientation-inexact-arithmetic" };
+            return Some(if role == 0 {
+                format!("{}: outer ring is counter-clockwise (sign of the exact area sum: {})", class, s)
+            } else {
+                format!("{}: inner ring is clockwise (sign of the exact area sum: {})", class, s)
+            });
         }
     }
     None
@@ -221,7 +225,9 @@ pub fn judge(case: &Case, built: &MRead) -> Vec<(String, String)> {
         let ringish = is_polygon || *role >= 2;
         if ringish {
             if let Some(c) = check_ring(input, *role, b, dims, is_polygon) {
-                out.push((format!("{}:{}:{}", tn, ctor, crate::oracle::clause_class(&c)), format!("ring {}: {}", i, c)));
+                let cc = crate::oracle::clause_class(&c);
+                let sig = if cc == "orientation-inexact-arithmetic" { format!("inexact-arithmetic:orientation:{}:{}", tn, ctor) } else { format!("{}:{}:{}", tn, ctor, cc) };
+                out.push((sig, format!("ring {}: {}", i, c)));
                 break;
             }
             if !is_polygon && b.kind != *role {
@@ -243,7 +249,7 @@ fn rebuild_check(case: &Case, lib: &Shape, built: &MRead) -> Option<(String, Str
     if case.ty.family() != Family::Polygon {
         return None;
     }
-    if !built.shape.parts.iter().all(|p| matches!(exact_shoelace(&p.pts), Some(s) if s != 0)) {
+    if !built.shape.parts.iter().all(|p| matches!(exact_shoelace_sign(&p.pts), Some(s) if s != 0)) {
         return None;
     }
     let again = match lib {
@@ -255,7 +261,12 @@ fn rebuild_check(case: &Case, lib: &Shape, built: &MRead) -> Option<(String, Str
     if super::c04::mread_eq(&from_lib(&again), built) {
         None
     } else {
-        Some((format!("{}:rebuild-not-idempotent", case.ty.name()), "with_rings(p.rings().to_vec()) differs from p".into()))
+        let exact = built.shape.parts.iter().all(|p| {
+            let mut r = p.pts.clone();
+            r.reverse();
+            trapezoid_sum_is_exact_in_f64(&p.pts) && trapezoid_sum_is_exact_in_f64(&r)
+        });
+        Some((if exact { format!("{}:rebuild-not-idempotent", case.ty.name()) } else { format!("inexact-arithmetic:rebuild-not-idempotent:{}", case.ty.name()) }, "with_rings(p.rings().to_vec()) differs from p".into()))
     }
 }
 
@@ -321,6 +332,8 @@ fn zm_patterns(ty: Ty) -> Vec<u8> {
 }
 
 enum Unit {
+    /// triangles over a 10 x 10 grid of coordinates of very different magnitude, first vertex fixed
+    Magnitudes { ty: Ty, first: usize },
     /// single ring over L3: sequences [lo, hi) of a given length
     Single { ty: Ty, len: usize, lo: usize, hi: usize },
     /// two rings over the lattice of the given side: first ring index, all second rings
@@ -409,6 +422,22 @@ fn enumerate(u: &Unit, ctx: &mut Ctx, tick: &dyn Fn()) {
                     if rev {
                         p.reverse();
                     }
+                    for role in 0..2u8 {
+                        run_case(&Case { ty: *ty, ctor: Ctor::WithRings, rings: vec![(role, p.clone())] }, ctx);
+                    }
+                }
+                tick();
+            }
+        }
+        Unit::Magnitudes { ty, first } => {
+            // coordinates of very different magnitude and sign (2^52 and beyond, where a double has no fraction
+            // bits left; values below the no-data threshold, which is about measures, not about positions)
+            let v: [f64; 10] = [0.0, 1.0, -1.0, 4503599627370496.0, -4503599627370496.0, 4503599627370498.0, -4503599627370498.0, -1361129467683753853853498429727072845824.0, 1361129467683753853853498429727072845824.0, 9.313225746154785e-10];
+            let pt = |i: usize| -> P4 { [v[i / 10], v[i % 10], 5.0, 7.0] };
+            let a = pt(*first);
+            for j in 0..100 {
+                for k in 0..100 {
+                    let p = vec![a, pt(j), pt(k)];
                     for role in 0..2u8 {
                         run_case(&Case { ty: *ty, ctor: Ctor::WithRings, rings: vec![(role, p.clone())] }, ctx);
                     }
@@ -531,6 +560,28 @@ fn selftest() -> (u64, u64) {
     if !judge(&case, &fresh()).is_empty() {
         return (1, 0);
     }
+    // the arbitrary-precision area sign against the i128 one: every closed ring of 3 vertices over {0,1,2}^2,
+    // as it is (i128 path) and with x scaled by 2^70 and y by 2^-40 (big-integer path; the sign cannot change),
+    // and the exactness classifier on rings it must accept / refuse
+    {
+        let lat = lattice(3);
+        for idx in 0..9usize.pow(3) {
+            let mut r = seq_from_index(idx, 3, &lat, 0);
+            r.push(r[0]);
+            let small = exact_shoelace(&r).map(|s| s.signum() as i32);
+            let scaled: Vec<P4> = r.iter().map(|p| [p[0] * 1180591620717411303424.0, p[1] * 9.094947017729282e-13, p[2], p[3]]).collect();
+            if exact_shoelace_sign(&r) != small || exact_shoelace_sign(&scaled) != small || !trapezoid_sum_is_exact_in_f64(&r) {
+                return (1, 0);
+            }
+        }
+        let a = 4503599627370496.0f64;
+        if trapezoid_sum_is_exact_in_f64(&[[-a, 1.0, 0.0, 0.0], [-(a + 2.0), 0.0, 0.0, 0.0], [a, a, 0.0, 0.0], [-a, 1.0, 0.0, 0.0]]) {
+            return (1, 0);
+        }
+        if exact_shoelace_sign(&[[-a, 1.0, 0.0, 0.0], [-(a + 2.0), 0.0, 0.0, 0.0], [a, a, 0.0, 0.0], [-a, 1.0, 0.0, 0.0]]) != Some(-1) {
+            return (1, 0);
+        }
+    }
     let mut inj = 0;
     let mut det = 0;
     let mut t = |f: &dyn Fn(&mut MRead)| {
@@ -580,6 +631,11 @@ pub fn check(tier: Tier) -> i32 {
         }
         units.push(Unit::Devs { ty });
         units.push(Unit::Offsets { ty });
+        if ty == Ty::Polygon || tier == Tier::Thorough {
+            for first in 0..100 {
+                units.push(Unit::Magnitudes { ty, first });
+            }
+        }
     }
     {
         let max = tier.pick(9000usize, 20000);
@@ -609,10 +665,10 @@ pub fn check(tier: Tier) -> i32 {
             tier,
             level: "model_checking",
             engine: "E2 enumerator over lattice vertex sequences on the real Polygon*/Multipatch constructors and macros; oracle = exact i128 shoelace and vertex-sequence comparison (RefRing)",
-            rule: "single ring: every vertex sequence of length 1..5 (thorough 6) over {0,1,2}^2 x declared role x {new, with_rings, polygon!} x {Polygon, PolygonM, PolygonZ} x Z/M patterns {all equal, last differs only in M, only in Z}; two rings: every pair of sequences of length <= 4 over {0,1}^2 (thorough also <= 3 over {0,1,2}^2) x all role vectors; three rings: every triple of length <= 3 over {0,1}^2 x all role vectors; deviations: every slot of 4 base rings x F_xy, and a last vertex 1-8 ulps away from the first in one coordinate; thin rings of EVERY size 4..=bound (one long edge, both orientations, both roles); every ring of 3-4 vertices over {0,1,2}^2 translated by offsets in {0, +-2^27, 2^40}^2; multipatch: every single patch (length <= 4) x 6 kinds x {new, with_parts, multipatch!}, every pair (length <= 3) x 36 kind pairs; non-trivial = >= 2 rings or a ring of >= 3 vertices",
+            rule: "single ring: every vertex sequence of length 1..5 (thorough 6) over {0,1,2}^2 x declared role x {new, with_rings, polygon!} x {Polygon, PolygonM, PolygonZ} x Z/M patterns {all equal, last differs only in M, only in Z}; two rings: every pair of sequences of length <= 4 over {0,1}^2 (thorough also <= 3 over {0,1,2}^2) x all role vectors; three rings: every triple of length <= 3 over {0,1}^2 x all role vectors; deviations: every slot of 4 base rings x F_xy, and a last vertex 1-8 ulps away from the first in one coordinate; thin rings of EVERY size 4..=bound (one long edge, both orientations, both roles); every ring of 3-4 vertices over {0,1,2}^2 translated by offsets in {0, +-2^27, 2^40}^2; every triangle over the 10x10 grid of coordinates {0, +-1, +-2^52, +-(2^52+2), +-2^130, 2^-30} (both roles), orientation judged by the sign of the exact area computed in arbitrary-precision integers; multipatch: every single patch (length <= 4) x 6 kinds x {new, with_parts, multipatch!}, every pair (length <= 3) x 36 kind pairs; non-trivial = >= 2 rings or a ring of >= 3 vertices",
             bounds: json!({"lattice": "3x3 (single ring), 2x2 (two / three rings)", "max_ring_len": tier.pick(5, 6), "units": units.len()}),
             exhaustive: true,
-            assumptions: vec!["orientation is judged only where the shoelace sum is exact (lattice coordinates); closure and vertex preservation also on F_xy values; equality of vertices is IEEE == on the fields the point type has (so -0.0 closes +0.0)".into()],
+            assumptions: vec!["orientation is judged for every finite ring against the sign of the exact area sum (arbitrary-precision integers); rings on which f64 cannot represent a term of that sum are reported under the clause 'inexact-arithmetic', which is a listed known finding; closure and vertex preservation also on F_xy values; equality of vertices is IEEE == on the fields the point type has (so -0.0 closes +0.0)".into()],
             started,
             states: 0,
             transitions: 0,
